@@ -554,7 +554,16 @@ def run_boxby_case(ctx, case):
                     np.arange(n_) // 3]
             if idx is not None:
                 ctx.tag("box:by-shared-non-default-index")
-            bp = boxplot.Boxplot(pd.Series(v, index=idx), by=pd.Series(by, index=idx),
+            by_se = pd.Series(by, index=idx)
+            if case.get("categorical"):
+                # the categories as an ordered factor whose order is not the alphabetical
+                # one (low < medium < high; seasons; months)
+                order_ = list(dict.fromkeys(by))[::-1] if case["categorical"] == "reversed" \
+                    else sorted(set(by), key=lambda c_: (len(str(c_)), str(c_)[::-1]))
+                by_se = pd.Series(pd.Categorical(by, categories=order_,
+                                                 ordered=bool(len(v) % 2)), index=idx)
+                ctx.tag("box:by-categorical-with-its-own-order")
+            bp = boxplot.Boxplot(pd.Series(v, index=idx), by=by_se,
                                  box_coverage=bc, whiskers_coverage=wc)
             st = bp.stats
         except Exception as e:
@@ -648,6 +657,39 @@ def run_violin_case(ctx, case):
         if len(fin) >= 2:
             ctx.evaluated()
             ctx.nontrivial("violin", c)
+    # drawing - whole range, then zoomed on a window tighter than the data - is a
+    # read-only use of the object: statistics and density profiles stay what they were
+    if n >= 5 and n % 2:
+        import matplotlib
+        matplotlib.use("Agg")
+        import matplotlib.pyplot as plt
+        kx0, ky0, st0 = kx.copy(), ky.copy(), st.copy()
+        allfin = np.concatenate([c[np.isfinite(c)] for c in cols]) if cols else np.array([])
+        if len(allfin) >= 2 and allfin.min() < allfin.max():
+            lo_, hi_ = np.quantile(allfin, [0.3, 0.6])
+            for kwd in ({}, {"ylim": (float(lo_), float(hi_))}, {}):
+                fig, ax = plt.subplots()
+                try:
+                    with warnings.catch_warnings():
+                        warnings.simplefilter("ignore")
+                        vl.draw(ax=ax, **kwd)
+                except Exception:
+                    ctx.extra["Violin.draw-raised"] += 1
+                finally:
+                    plt.close(fig)
+            ctx.tag("violin:drawn-zoomed")
+            ctx.api("Violin.draw", 3)
+
+            def eqf(a_, b_):
+                a_, b_ = np.asarray(a_.values, float), np.asarray(b_.values, float)
+                return a_.shape == b_.shape and bool(np.all((a_ == b_) |
+                                                            (np.isnan(a_) & np.isnan(b_))))
+            ctx.check("violin.unchanged-by-draw", eqf(vl.kde_x, kx0) and
+                      eqf(vl.kde_y, ky0) and eqf(vl.stats, st0),
+                      "Violin|changed-by-draw", case,
+                      lambda: {"kde_y_nan_before": int(np.isnan(ky0.values).sum()),
+                               "kde_y_nan_after": int(np.isnan(np.asarray(
+                                   vl.kde_y.values, float)).sum())})
 
 
 # ------------------------------------------------------------------ driver ----
@@ -744,7 +786,9 @@ def run(ctx):
         # grouped
         nrow2 = int(rng.integers(6, 200))
         ncat = int(rng.integers(2, 6))
-        labels = [["a", "b", "c", "d", "e"], [1, 2, 3, 4, 5]][it % 2][:ncat]
+        labels = [["a", "b", "c", "d", "e"], [1, 2, 3, 4, 5],
+                  ["low", "medium", "high", "extreme", "none"],
+                  ["winter", "spring", "summer", "autumn", "all"]][it % 4][:ncat]
         p = rng.dirichlet(np.ones(ncat))
         by = [labels[i] for i in rng.choice(ncat, size=nrow2, p=p)]
         if len(set(by)) >= 2:
@@ -754,7 +798,9 @@ def run(ctx):
                                  "whisk": wc,
                                  "index": ["default", "permuted", "gapped", "shifted",
                                            "dates", "labels", "repeated",
-                                           "repeated-dates"][it0 % 8]})
+                                           "repeated-dates"][it0 % 8],
+                                 "categorical": [None, "reversed", None, "own"][it0 % 4]
+                                 if it % 4 >= 2 else None})
         # violin
         if it0 % 3 == 0:
             nv = [5, 101, 151, 30, 499, 120, 3, 250, 500, 501, 640, 1000, 1025,
